@@ -441,6 +441,11 @@ fn take_stack() -> DefaultStack {
 
 impl System {
     pub fn new(cfg: Config, bytecode: Bytecode) -> Result<System, String> {
+        Self::boot(cfg, Some(bytecode))
+    }
+
+    /// Build the system; with `None` no process is started (used by REPL sessions).
+    pub fn boot(cfg: Config, bytecode: Option<Bytecode>) -> Result<System, String> {
         quiver_core::executor::verif::set_quantum(Some(cfg.quantum));
         quiver_core::executor::verif::select_log_start();
         let builtins = builtin_registry(cfg.io);
@@ -483,9 +488,13 @@ impl System {
                 st: backend.clone(),
             }));
         }
-        let entry_pid = env
-            .start_process(Some(bytecode))
-            .map_err(|e| format!("start_process: {:?}", e))?;
+        let has_entry = bytecode.is_some();
+        let entry_pid = match bytecode {
+            Some(bc) => env
+                .start_process(Some(bc))
+                .map_err(|e| format!("start_process: {:?}", e))?,
+            None => usize::MAX,
+        };
         let mut sys = System {
             cfg,
             env,
@@ -507,8 +516,12 @@ impl System {
             last_component: 0,
             select_log: vec![],
         };
-        if sys.cfg.request_early {
+        if sys.cfg.request_early && has_entry {
             sys.issue_request();
+        }
+        if !has_entry {
+            // sessions issue their own requests; never let the scheduler issue one
+            sys.request_id = Some(u64::MAX);
         }
         for i in 0..sys.workers.len() {
             sys.refresh_idle(i);
@@ -764,7 +777,7 @@ impl System {
         if self.entry_result.is_some() {
             return;
         }
-        if let Some(id) = self.request_id {
+        if let Some(id) = self.request_id.filter(|id| *id != u64::MAX) {
             match self.env.poll_request(id) {
                 Ok(Some(RequestResult::Result(r, _))) => self.entry_result = Some(r),
                 Ok(Some(_)) => self.errors.push("unexpected request result kind".into()),
